@@ -349,7 +349,7 @@ func genC08x(t *rapid.T) c08xCase {
 			{Adds: rapid.IntRange(16, 17).Draw(t, "adds-c"), Hold: 0},
 		}
 		c.Prefill = rapid.IntRange(14, 15).Draw(t, "prefill")
-		c.Budget = verifkit.Scale(40000, 400000)
+		c.Budget = verifkit.Scale(40000, 150000)
 	}
 	return c
 }
